@@ -30,11 +30,11 @@ POM = 'Scalibr.Pom.'
 THEOREMS = [NPM + 'C13_npm_escape', NPM + 'C13_npm_roundtrip_partial', NPM + 'C13_npm_identity', NPM + 'C13_npm_no_silent_success',
             NPM + 'C13_npm_present_applied', NPM + 'C13_npm_alias_at_witness', NPM + 'C13_npm_absent_key_witness',
             NPM + 'C13_npm_bytes_partial', NPM + 'C13_npm_bytes_untouched_partial', NPM + 'C13_npm_bytes_identity',
-            POM + 'C13_pom_props_total', POM + 'C13_pom_props_sound', POM + 'C13_pom_props_repeated_name_fixed',
+            POM + 'C13_pom_props_total', POM + 'C13_pom_props_fuel_adequate', POM + 'C13_pom_props_sound', POM + 'C13_pom_props_repeated_name_fixed',
             POM + 'C13_pom_props_fixed_witnesses', POM + 'C13_pom_identity', POM + 'C13_pom_invalid_name_error',
             POM + 'C13_pom_literal_roundtrip_partial', POM + 'C13_pom_no_silent_success_partial',
             POM + 'C13_pom_class_witnesses', POM + 'C13_pom_other_profile_witness', POM + 'C13_pom_fixed_witnesses',
-            'Scalibr.PomTok.C13_pom_tokens_identity_partial', 'Scalibr.PomTok.C13_pom_tokens_comment_witness']
+            'Scalibr.PomTok.C13_pom_tokens_identity_partial', 'Scalibr.PomTok.C13_pom_tokens_fuel_adequate', 'Scalibr.PomTok.C13_pom_tokens_comment_witness']
 
 
 def unhex(x):
